@@ -4,7 +4,7 @@
    Gen_md_*.v, Gen_tasks.v), plus the correspondence predicate. *)
 From Coq Require Import ZArith QArith Qabs List Bool Lia.
 From FV Require Import Common.ListX Common.PySem Common.Chunk.
-From FV Require gen.Gen_ds_shakespeare gen.Gen_md_shakespeare gen.Gen_ds_stackoverflow gen.Gen_md_stackoverflow
+From FV Require Import gen.Gen_ds_shakespeare gen.Gen_md_shakespeare gen.Gen_ds_stackoverflow gen.Gen_md_stackoverflow
   gen.Gen_ds_cifar100 gen.Gen_ds_emnist gen.Gen_tasks gen.Gen_md_cifar100 gen.Gen_ds_cifar100_defaults
   gen.Gen_ds_shakespeare_defaults gen.Gen_md_shakespeare_loss gen.Gen_md_stackoverflow_loss.
 From FV Require Import Common.QRow.
